@@ -1,14 +1,357 @@
 import Astria.Conductor.Model
+import Astria.Conductor.Spec
 import Driver.Common
-/- Area `executor` (stub): replays the trace through the model. -/
+/- Area `executor` (C10): replays the trace of the real conductor executor / BlockCache through
+   `Astria.Conductor` (correspondence, string equality of result + state dump), and evaluates
+   the C10 acceptor `Mon` (Astria/Conductor/Spec.lean — the object the theorems are about) on
+   the deliveries, verdicts and RPCs the implementation itself reported (monitors). -/
 namespace Driver.ExecutorArea
+open Astria.Conductor
+
+/-! ### printing (must match /verif/harness/conductor/executor.rs) -/
+
+def fmtBlk (b : Blk) : String := s!"{b.number}:{b.id}:{b.parent}:{b.seq}"
+
+def rerrName : RErr → String
+  | .notHead => "not-head" | .unknownBlock => "unknown-block" | .firmExceedsSoft => "firm-exceeds-soft"
+  | .decrease => "decrease" | .noSuchBlock => "no-such-block"
+
+def fmtResBlk : Res Blk → String
+  | .ok b => fmtBlk b
+  | .rej e => "rej:" ++ rerrName e
+
+def fmtResUnit : Res Unit → String
+  | .ok _ => "ok"
+  | .rej e => "rej:" ++ rerrName e
+
+def fmtRpc : Rpc → String
+  | .exec seq p r => s!"X,{seq},{p},{fmtResBlk r}"
+  | .update f s c r => s!"U,{fmtBlk f},{fmtBlk s},{c},{fmtResUnit r}"
+  | .get n r => s!"G,{n},{fmtResBlk r}"
+
+def fmtRpcs (l : List Rpc) : String := if l.isEmpty then "-" else ";".intercalate (l.map fmtRpc)
+
+def errName : ErrKind → String
+  | .outOfOrder => "out-of-order" | .heightMismatch => "height-mismatch" | .map => "map"
+  | .execute => "execute" | .contract => "contract" | .getBlock => "get-block"
+  | .updateBuild => "update-build" | .updateRpc => "update-rpc" | .updateState => "update-state"
+
+def fmtOutcome : Outcome → String
+  | .ok => "ok" | .dropped => "drop" | .err k => "err:" ++ errName k
+
+def fmtState (s : Sys) : String :=
+  let nf := if mapOk s.cfg s.ex.c.firm.number then toString s.nextFirm else "-"
+  let ns := if mapOk s.cfg s.ex.c.soft.number then toString s.nextSoft else "-"
+  let pend := if s.ex.pending.isEmpty then "-"
+    else ",".intercalate (s.ex.pending.map fun (k, b) => s!"{k}/{fmtBlk b}")
+  s!"firm={fmtBlk s.ex.c.firm} soft={fmtBlk s.ex.c.soft} cel={s.ex.c.cel} nf={nf} ns={ns} pend={pend}"
+
+/-! ### parsing of what the implementation reported -/
+
+def parseBlk (s : String) : Option Blk :=
+  match s.splitOn ":" with
+  | [a, b, c, d] => do some ⟨← a.toNat?, ← b.toNat?, ← c.toNat?, ← d.toNat?⟩
+  | _ => none
+
+def parseRErr : String → Option RErr
+  | "not-head" => some .notHead | "unknown-block" => some .unknownBlock
+  | "firm-exceeds-soft" => some .firmExceedsSoft | "decrease" => some .decrease
+  | "no-such-block" => some .noSuchBlock
+  | _ => none
+
+def parseResBlk (s : String) : Option (Res Blk) :=
+  if s.startsWith "rej:" then
+    -- rejections the model does not know (e.g. bad-session) are reported as `notHead`; they
+    -- are rejections all the same for the acceptor
+    some (.rej ((parseRErr (s.drop 4).toString).getD .notHead))
+  else (parseBlk s).map .ok
+
+def parseResUnit (s : String) : Option (Res Unit) :=
+  if s = "ok" then some (.ok ())
+  else if s.startsWith "rej:" then some (.rej ((parseRErr (s.drop 4).toString).getD .notHead))
+  else none
+
+def parseRpc (s : String) : Option Rpc :=
+  match s.splitOn "," with
+  | ["X", seq, p, r] => do some (.exec (← seq.toNat?) (← p.toNat?) (← parseResBlk r))
+  | ["U", f, so, c, r] => do some (.update (← parseBlk f) (← parseBlk so) (← c.toNat?) (← parseResUnit r))
+  | ["G", n, r] => do some (.get (← n.toNat?) (← parseResBlk r))
+  | _ => none
+
+def parseRpcs (s : String) : Option (List Rpc) :=
+  if s = "-" then some [] else (s.splitOn ";").mapM parseRpc
+
+def parseOutcome : String → Option Outcome
+  | "ok" => some .ok | "drop" => some .dropped
+  | "err:out-of-order" => some (.err .outOfOrder) | "err:height-mismatch" => some (.err .heightMismatch)
+  | "err:map" => some (.err .map) | "err:execute" => some (.err .execute)
+  | "err:contract" => some (.err .contract) | "err:get-block" => some (.err .getBlock)
+  | "err:update-build" => some (.err .updateBuild) | "err:update-rpc" => some (.err .updateRpc)
+  | "err:update-state" => some (.err .updateState)
+  | s => if s.startsWith "err:" then some (.err .execute) else none
+
+def parseMode : String → Option Mode
+  | "soft" => some .softOnly | "firm" => some .firmOnly | "both" => some .softAndFirm
+  | _ => none
+
+def modeName : Mode → String
+  | .softOnly => "soft" | .firmOnly => "firm" | .softAndFirm => "both"
+
+def parseFirmList (s : String) : Option (List (Nat × Nat)) :=
+  if s = "-" then some [] else
+  (s.splitOn ",").mapM fun e =>
+    match e.splitOn "/" with
+    | [h, c] => do some (← h.toNat?, ← c.toNat?)
+    | _ => none
+
+def parseSoftList (s : String) : Option (List Nat) :=
+  if s = "-" then some [] else (s.splitOn ",").mapM (·.toNat?)
+
+/-- `State::try_from_execution_session` + `ExecutionSession::try_from_raw` +
+    `create_block_channels`: can the session start at all? -/
+def initResult (cfg : Cfg) : Option String :=
+  if cfg.firm0 > cfg.soft0 then some "err:init"
+  else if cfg.mode.withFirm && !mapOk cfg cfg.firm0 then some "err:init"
+  else if cfg.mode.withSoft && !mapOk cfg cfg.soft0 then some "err:init"
+  else if cfg.mode = .softAndFirm ∧ cfg.lookahead = 0 then some "err:channels"
+  else none
+
+/-- The hypotheses of the C10 theorems on the session (`Cfg.WF` in Theorems.lean). -/
+def cfgWF (cfg : Cfg) : Bool :=
+  decide (cfg.firm0 ≤ cfg.soft0) && decide (cfg.rollupStart ≤ cfg.firm0 + 1) && decide (1 ≤ cfg.seqStart)
+    && (cfg.mode != .firmOnly || decide (cfg.firm0 = cfg.soft0))
+
+/-! ### the BlockCache part -/
+
+def fmtCErr : CErr → String
+  | .zero => "zero" | .old => "old" | .occupied => "occupied"
+
+def fmtCache (c : Cache) : String := s!"next={c.next}"
+
+/-- `cscan hi` of the harness: probe-insert (tag 0) every height from `next` to `hi`, report the
+    occupied ones, then pop until empty. -/
+def cacheScan (c : Cache) (hi : Nat) : Cache × List Nat × List (Nat × Nat) := Id.run do
+  let mut c := c
+  let mut occ : List Nat := []
+  let lo := c.next
+  for k in [0:hi + 1 - lo] do
+    let h := lo + k
+    match c.insert h 0 with
+    | .ok c' => c := c'
+    | .error .occupied => occ := occ ++ [h]
+    | .error _ => pure ()
+  let mut popped : List (Nat × Nat) := []
+  let mut fuel := c.inner.length + 1
+  while fuel > 0 do
+    fuel := fuel - 1
+    match c.pop with
+    | (some e, c') => c := c'; popped := popped ++ [e]
+    | (none, _) => fuel := 0
+  return (c, occ, popped)
+
+/-! ### driver state -/
+
+structure St where
+  sys : Option Sys := none
+  mon : Option Mon := none            -- acceptor over the implementation's own reports
+  cache : Option Cache := none
+  -- implementation-side ghost state of the cache monitors
+  cNext : Nat := 0
+  cHeld : List (Nat × Nat) := []      -- (height, tag) accepted by the implementation's insert
+
+def getField (s key : String) : Option String :=
+  (Driver.words s).findSome? fun w =>
+    if w.startsWith (key ++ "=") then some (w.drop (key.length + 1)).toString else none
+
+def parts (impl : String) : List String := impl.splitOn " | "
 
 def run (lines : Array String) : Driver.Report := Id.run do
   let mut r : Driver.Report := {}
+  let mut st : St := {}
   let mut n := 0
   for line in lines do
     n := n + 1
-    r := r.addDisagree n line "bad-area"
+    let (op, impl) := Driver.splitLine line
+    let ps := parts impl
+    match Driver.words op with
+    | ["executor", "reset", "exec", mode, s, rr, f0, s0, cel0, la] =>
+      match parseMode mode, s.toNat?, rr.toNat?, f0.toNat?, s0.toNat?, cel0.toNat?, la.toNat? with
+      | some mode, some s, some rr, some f0, some s0, some cel0, some la =>
+        let cfg : Cfg := ⟨mode, s, rr, f0, s0, cel0, la⟩
+        match initResult cfg with
+        | some e =>
+          st := { st with sys := none, mon := none, cache := none }
+          r := r.check n line impl e
+          r := r.bump "exec_session_refused"
+        | none =>
+          let sys := Sys.init cfg
+          st := { st with sys := some sys, mon := if cfgWF cfg then some (Mon.init cfg) else none, cache := none }
+          r := r.check n line impl s!"ok | - | {fmtState sys}"
+          r := r.bump s!"exec_sessions_{modeName mode}"
+          if !cfgWF cfg then r := r.bump "exec_sessions_outside_theorem_hypotheses"
+      | _, _, _, _, _, _, _ => r := r.addDisagree n line "bad-reset"
+    | ["executor", "soft", h] | ["executor", "firm", h, _] =>
+      match st.sys, h.toNat? with
+      | some sys, some h =>
+        let cel := match Driver.words op with
+          | [_, _, _, c] => c.toNat!
+          | _ => 0
+        let mop : Op := if (Driver.words op)[1]! = "soft" then .soft h else .firm h cel
+        let (sys', out) := step sys mop
+        st := { st with sys := some sys' }
+        r := r.check n line impl s!"{fmtOutcome out.res} | {fmtRpcs out.rpcs} | {fmtState sys'}"
+        -- statistics
+        let kind := if (Driver.words op)[1]! = "soft" then "soft" else "firm"
+        r := r.bump s!"{kind}_{fmtOutcome out.res}"
+        match out.rpcs with
+        | [.exec _ _ _, .update _ _ _ _] => r := r.bump s!"{kind}_executed"
+        | [.update _ _ _ _] => r := r.bump "firm_from_pending"
+        | [.get _ _, .update _ _ _ _] => r := r.bump "firm_from_rollup"
+        | [] => pure ()
+        | _ => r := r.bump s!"{kind}_other_rpc_pattern"
+        -- monitor: the acceptor on what the implementation reported
+        match st.mon with
+        | none => pure ()
+        | some m =>
+          match ps with
+          | [ires, irpcs, _] =>
+            match parseOutcome ires, parseRpcs irpcs with
+            | some o, some rpcs =>
+              match m.stepEvent sys.cfg ⟨mop, o, rpcs⟩ with
+              | some m' => st := { st with mon := some m' }
+              | none =>
+                r := r.addMonitor "c10_history_accepted" n line
+                  s!"delivery not allowed by the C10 acceptor: next ExecuteBlock height {m.next}, head {fmtBlk m.head}, firm {fmtBlk m.c.firm}, soft {fmtBlk m.c.soft}"
+                st := { st with mon := none }
+            | _, _ =>
+              r := r.addMonitor "c10_parse" n line "cannot parse the implementation's report"
+              st := { st with mon := none }
+          | _ =>
+            r := r.addMonitor "c10_parse" n line "cannot parse the implementation's report"
+            st := { st with mon := none }
+      | _, _ => r := r.check n line impl "err:no-session"
+    | ["executor", "loop", fl, sl] =>
+      match st.sys, parseFirmList fl, parseSoftList sl with
+      | some sys, some fl, some sl =>
+        -- capacities chosen by `create_block_channels`
+        let fl := fl.take 16
+        let sl := sl.take (match sys.cfg.mode with
+          | .softOnly => 1024
+          | .softAndFirm => sys.cfg.lookahead
+          | .firmOnly => max sys.cfg.lookahead 1)
+        let (sys', res, evs, lf, ls) := runLoop sys fl sl
+        st := { st with sys := some sys' }
+        r := r.check n line impl
+          s!"{fmtOutcome res} | {fmtRpcs (allRpcs evs)} | {fmtState sys'} | left={lf},{ls}"
+        r := r.bump s!"loop_{fmtOutcome res}"
+        r := r.bump "loop_deliveries" evs.length
+        if ls > 0 ∧ res = .ok then r := r.bump "loop_stopped_by_spread"
+        -- monitor: RPC-level acceptor on the implementation's RPC sequence
+        match st.mon with
+        | none => pure ()
+        | some m =>
+          match ps with
+          | [_, irpcs, _, _] =>
+            match parseRpcs irpcs with
+            | some rpcs =>
+              match m.stepRpcs rpcs with
+              | some m' => st := { st with mon := some m' }
+              | none =>
+                r := r.addMonitor "c10_history_accepted" n line
+                  s!"RPC sequence not allowed by the C10 acceptor: next ExecuteBlock height {m.next}, head {fmtBlk m.head}, firm {fmtBlk m.c.firm}, soft {fmtBlk m.c.soft}"
+                st := { st with mon := none }
+            | none =>
+              r := r.addMonitor "c10_parse" n line "cannot parse the implementation's report"
+              st := { st with mon := none }
+          | _ =>
+            r := r.addMonitor "c10_parse" n line "cannot parse the implementation's report"
+            st := { st with mon := none }
+      | _, _, _ => r := r.check n line impl "err:no-session"
+    | ["executor", "reset", "cache", nx] =>
+      match Cache.withNextHeight nx.toNat! with
+      | .ok c =>
+        st := { st with cache := some c, sys := none, mon := none, cNext := nx.toNat!, cHeld := [] }
+        r := r.check n line impl s!"ok | {fmtCache c}"
+        r := r.bump "cache_sessions"
+      | .error e =>
+        st := { st with cache := none, sys := none, mon := none }
+        r := r.check n line impl s!"err:{fmtCErr e}"
+    | "executor" :: cop :: args =>
+      match st.cache with
+      | none => r := r.check n line impl "err:no-session"
+      | some c =>
+        let ires := ps.headD ""
+        let inext := ((getField (ps.getD 1 "") "next").bind (·.toNat?)).getD 0
+        match cop, args with
+        | "cins", [h, tag] =>
+          let h := h.toNat!
+          let tag := tag.toNat!
+          let (c', o) := c.step (.insert h tag)
+          st := { st with cache := some c' }
+          let ms := match o with
+            | .inserted => "ok"
+            | .insertErr e => "err:" ++ fmtCErr e
+            | _ => "?"
+          r := r.check n line impl s!"{ms} | {fmtCache c'}"
+          r := r.bump s!"cins_{ms}"
+          -- monitors on the implementation's answers
+          if ires = "ok" then
+            if h < st.cNext then
+              r := r.addMonitor "c10_cache_sequential" n line s!"accepted a block below next height {st.cNext}"
+            if (st.cHeld.find? (·.1 = h)).isSome then
+              r := r.addMonitor "c10_cache_sequential" n line "accepted a second block at an occupied height"
+            st := { st with cHeld := st.cHeld ++ [(h, tag)] }
+          if inext ≠ st.cNext then
+            r := r.addMonitor "c10_cache_sequential" n line "insert moved the next height"
+        | "cpop", [] =>
+          let (c', o) := c.step .pop
+          st := { st with cache := some c' }
+          let ms := match o with
+            | .popped h tag => s!"some:{h}:{tag}"
+            | _ => "none"
+          r := r.check n line impl s!"{ms} | {fmtCache c'}"
+          r := r.bump (if ms = "none" then "cpop_none" else "cpop_some")
+          match ires.splitOn ":" with
+          | ["some", h, tag] =>
+            let h := h.toNat!
+            let tag := tag.toNat!
+            if h ≠ st.cNext then
+              r := r.addMonitor "c10_cache_sequential" n line s!"popped height {h} but next height was {st.cNext}"
+            if inext ≠ h + 1 then
+              r := r.addMonitor "c10_cache_sequential" n line s!"next height after popping {h} is {inext}"
+            if (st.cHeld.find? (·.1 = h)) ≠ some (h, tag) then
+              r := r.addMonitor "c10_cache_sequential" n line "popped a block that was not the one inserted at this height"
+            st := { st with cNext := inext, cHeld := st.cHeld.filter (·.1 ≠ h) }
+          | _ =>
+            if (st.cHeld.find? (·.1 = st.cNext)).isSome then
+              r := r.addMonitor "c10_cache_sequential" n line s!"block at next height {st.cNext} is held but pop returned none"
+            if inext ≠ st.cNext then
+              r := r.addMonitor "c10_cache_sequential" n line "empty pop moved the next height"
+        | "cdrop", [h] =>
+          let h := h.toNat!
+          let (c', _) := c.step (.dropObsolete h)
+          st := { st with cache := some c' }
+          r := r.check n line impl s!"ok | {fmtCache c'}"
+          r := r.bump (if h > c.next then "cdrop_forward" else "cdrop_noop")
+          if inext ≠ max st.cNext h then
+            r := r.addMonitor "c10_cache_sequential" n line s!"next height after drop_obsolete({h}) is {inext}, was {st.cNext}"
+          st := { st with cNext := inext, cHeld := st.cHeld.filter (fun e => h ≤ e.1) }
+        | "cscan", [hi] =>
+          let (c', occ, popped) := cacheScan c hi.toNat!
+          st := { st with cache := some c' }
+          let occS := if occ.isEmpty then "-" else ",".intercalate (occ.map toString)
+          let popS := if popped.isEmpty then "-" else ",".intercalate (popped.map fun (h, t) => s!"{h}:{t}")
+          r := r.check n line impl s!"occ={occS} popped={popS} | {fmtCache c'}"
+          r := r.bump "cscan"
+          -- monitor: what is still held according to the implementation's own earlier answers
+          let heldNow := (st.cHeld.filter (fun e => st.cNext ≤ e.1 ∧ e.1 ≤ hi.toNat!)).map (·.1)
+          let occI := (getField ires "occ").getD "?"
+          let expect := if heldNow.isEmpty then "-" else ",".intercalate ((heldNow.mergeSort (· ≤ ·)).map toString)
+          if occI ≠ expect then
+            r := r.addMonitor "c10_cache_sequential" n line s!"cache content {occI} differs from the blocks it accepted and never handed out or dropped: {expect}"
+          st := { st with cNext := inext, cHeld := [] }
+        | _, _ => r := r.addDisagree n line "bad-op"
+    | _ => r := r.addDisagree n line "bad-area"
   return r
 
 end Driver.ExecutorArea
